@@ -1,4 +1,5 @@
 """C19 — Multitaper estimates are weighted means of tapered periodograms."""
+import json
 import numpy as np
 import vlib
 from vlib import cz, czl, tolq, fc, fcl, fl
@@ -251,11 +252,32 @@ def check_case(x, NW, k, nfft, method, sbf=False, fs=1.0, tag='', parts=('pmtm',
     return bad
 
 
+def check_rerun(x, N, cfg1, cfg2):
+    """the class result is the weighted mean for the CURRENT NW / k / method / tapers: run, change them, run again, compare with a fresh object"""
+    from spectrum.mtm import MultiTapering
+    p = MultiTapering(x, NW=cfg1['NW'], k=cfg1['k'], method=cfg1['method'], NFFT=cfg1['NFFT'], scale_by_freq=False)
+    p()
+    p.NW = cfg2['NW']; p.k = cfg2['k']; p.method = cfg2['method']
+    p()
+    q = MultiTapering(x, NW=cfg2['NW'], k=cfg2['k'], method=cfg2['method'], NFFT=cfg1['NFFT'], scale_by_freq=False)
+    q()
+    a = np.asarray(p.psd); b = np.asarray(q.psd)
+    bad = []
+    if a.shape != b.shape or np.max(np.abs(a - b)) > 1e-9 * max(np.max(np.abs(b)), 1e-300):
+        bad.append(('class_rerun/MultiTapering/psd', 'after changing NW/k/method and running again the PSD is not the weighted mean a fresh object with those values returns'))
+    ea = np.asarray(p.eigenvalues); eb = np.asarray(q.eigenvalues)
+    if ea.shape != eb.shape or np.max(np.abs(ea - eb)) > 1e-9:
+        bad.append(('class_rerun/MultiTapering/eigenvalues', 'eigenvalues are those of the previous NW/k'))
+    return bad
+
+
 def replay(rep):
     r = rep['replay']
     x = vlib.unhexv(r['x'])
     if not r.get('complex', False):
         x = np.asarray(x.real, dtype=float)
+    if r.get('kind') == 'rerun':
+        return not check_rerun(x, len(x), r['cfg1'], r['cfg2'])
     if r.get('dtype') == 'int64':
         x = x.astype(np.int64)
     return not check_case(x, r['NW'], r['k'], r.get('NFFT'), r['method'], sbf=r.get('scale_by_freq', False), fs=r.get('sampling', 1.0))
@@ -508,3 +530,27 @@ def run(ctx):
             bad = [('check_raises/pmtm/%s/%s' % (tag, method), 'raised %r' % (e,))]
         for key, what in bad:
             ctx.violation(key, what, {'x': vlib.hexv(x), 'complex': cplx, 'dtype': dtype, 'NW': NW, 'k': k, 'NFFT': nfft, 'method': method, 'scale_by_freq': sbf, 'sampling': fs})
+
+    # ---------------- the same object run again after NW / k / method were changed
+    for it in range(ctx.q(16, 200)):
+        cplx = bool(it % 2); N = int(rng.integers(16, 129))
+        x = gen_data(rng, N, cplx, str(rng.choice(['noise', 'tone'])))
+        def cfg():
+            NW = float(rng.choice([1.5, 2, 2.5, 3, 3.5, 4])); NW = min(NW, N / 2.0 - 1)
+            return {'NW': NW, 'k': [None, int(rng.integers(1, int(2 * NW) + 1))][int(rng.integers(0, 2))], 'method': str(rng.choice(METHODS)), 'NFFT': None}
+        c1 = cfg(); c2 = cfg()
+        if it % 3 == 0:
+            c2['k'] = c1['k']; c2['method'] = c1['method']            # only NW changes
+            while c2['NW'] == c1['NW']:
+                c2['NW'] = float(rng.choice([1.5, 2, 2.5, 3, 3.5, 4]))
+            if c2['k'] is not None:
+                c2['k'] = c1['k'] = min(c1['k'], int(2 * min(c1['NW'], c2['NW'])))
+        c1['NFFT'] = c2['NFFT'] = [None, N + 3, 2 * N][int(rng.integers(0, 3))]
+        tag = 'complex' if cplx else 'real'
+        ctx.count('search/rerun/%s' % tag); ctx.case(('rerun', x.tobytes(), json.dumps(c1), json.dumps(c2)), nontrivial=True)
+        try:
+            bad = check_rerun(x, N, c1, c2)
+        except Exception as e:  # noqa
+            bad = [('class_rerun/MultiTapering/raises', 'raised %r' % (e,))]
+        for key, what in bad:
+            ctx.violation(key, what, {'kind': 'rerun', 'x': vlib.hexv(x), 'complex': cplx, 'cfg1': c1, 'cfg2': c2})
